@@ -10,6 +10,7 @@ reads included) and - where it says so - every ending of the stream; no bound on
 import ConfModel.Lemmas.Delimited
 import ConfModel.Generated.C09Facts
 import ConfModel.Lemmas.SyncPipe
+import ConfModel.Lemmas.PeerLoop
 namespace ConfModel.Props.C09
 open ConfModel.Delimited ConfModel.Framing
 
@@ -432,5 +433,80 @@ theorem fail_propagates (max : Nat) (msgs : List Bytes) (m : Bytes) (k : Nat)
       simp [tailRes, endRes]
     · rw [frames_cut_body max 0 k m hm.1 hm.2 (by omega) hk]
       simp [tailRes, endRes]
+
+
+/-! ### The request loop of a peer over a decoder that reads ahead (Model/PeerLoop.lean)
+
+`loopOne` is the loop of grpcclient.RunWithTrace / referenceclient.run: ONE decoder for all of
+stdin; `loopFresh` is the servers' one-shot idiom `codec.NewDecoder(in).DecodeNext(req)` inside a
+loop. With a decoder that reads ahead (the JSON variant: encoding/json.Decoder) they differ as soon
+as one read delivers bytes beyond the end of a message. -/
+
+open ConfModel.PeerLoop in
+/-- ONE decoder, the whole stream delivered by a single read (a file, an OS pipe that was filled
+before the peer read): every message comes out, then a clean end — for every message list. -/
+theorem one_decoder_one_read (max : Nat) (msgs : List Bytes) (hf : Fits max msgs) :
+    loopOne max (msgs.length + 1) [] [msgs.flatMap encode] = msgs.map Res.msg ++ [Res.eof] := by
+  rw [loopOne_nil_cons, loopOne_buffered max msgs hf]
+
+example : Fits 9 [[1, 2], [], [7]] := by
+  intro m hm; simp at hm; rcases hm with h | h | h <;> subst h <;> decide
+
+open ConfModel.PeerLoop in
+/-- A FRESH decoder per message, one read delivering a message and ANYTHING after it (all later
+messages, or the beginning of the next): the first message comes out, what was read ahead is lost
+with the decoder, and the end of the stream looks clean — the later requests are dropped silently. -/
+theorem fresh_decoder_drops_readahead (max : Nat) (m rest : Bytes) (k : Nat)
+    (hm : m.length ≤ max) (h32 : m.length < 4294967296) :
+    loopFresh max (k + 2) [encode m ++ rest] = [Res.msg m, Res.eof] := by
+  have hn : next max [] [encode m ++ rest] = (.msg m, rest, []) := by
+    rw [next_nil_cons]; exact next_split_some max _ [] m rest (split_encode max m rest hm h32)
+  rw [loopFresh_msg max (k+1) _ m rest [] hn, loopFresh_end]
+
+open ConfModel.PeerLoop in
+/-- Hence the two loops are NOT equivalent: for every non-empty message list after a first message,
+delivered in one read, the loop over one decoder returns them all and the loop with a fresh decoder
+per message only the first. -/
+theorem fresh_decoder_not_equivalent (max : Nat) (m m' : Bytes) (ms : List Bytes) (hf : Fits max (m :: m' :: ms)) :
+    loopFresh max ((m :: m' :: ms).length + 1) [(m :: m' :: ms).flatMap encode]
+      ≠ loopOne max ((m :: m' :: ms).length + 1) [] [(m :: m' :: ms).flatMap encode] := by
+  have hm := hf m (by simp)
+  rw [one_decoder_one_read max _ hf, List.flatMap_cons]
+  have : (m :: m' :: ms).length + 1 = ms.length + 1 + 2 := by simp
+  rw [this, fresh_decoder_drops_readahead max m _ _ hm.1 hm.2]
+  simp
+
+example : Fits 9 [[1, 2], [3]] := by
+  intro m hm; simp at hm; rcases hm with h | h <;> subst h <;> decide
+
+open ConfModel.PeerLoop in
+/-- ... while with exactly one message per read (one Write per message over a synchronous pipe: what
+the test runner does) the fresh decoders read the same as one decoder: the difference needs a
+read that crosses a message boundary. -/
+theorem fresh_decoder_one_read_per_message (max : Nat) : ∀ (msgs : List Bytes), Fits max msgs →
+    loopFresh max (msgs.length + 1) (msgs.map encode) = msgs.map Res.msg ++ [Res.eof]
+  | [], _ => by simp [loopFresh_end]
+  | m :: ms, hf => by
+    have hm := hf m (by simp)
+    have hms : Fits max ms := fun x hx => hf x (by simp [hx])
+    have hs : split max (encode m) = some (m, []) := by
+      have := split_encode max m [] hm.1 hm.2
+      rwa [List.append_nil] at this
+    have hn : next max [] (encode m :: ms.map encode) = (.msg m, [], ms.map encode) := by
+      rw [next_nil_cons]; exact next_split_some max _ _ m [] hs
+    rw [List.map_cons, List.length_cons, loopFresh_msg max _ _ m [] _ hn,
+      fresh_decoder_one_read_per_message max ms hms]
+    simp
+
+open ConfModel.PeerLoop in
+/-- witnesses on concrete streams: a read that ends inside the second message — one decoder returns
+both messages, fresh decoders parse the tail of the split message as the beginning of a message
+(here: a truncated one); byte-by-byte reads — both agree. -/
+theorem fresh_decoder_witness :
+    loopOne 9 3 [] [[0, 0, 0, 1, 7, 0, 0], [0, 2, 8, 9]] = [.msg [7], .msg [8, 9], .eof] ∧
+    loopFresh 9 3 [[0, 0, 0, 1, 7, 0, 0], [0, 2, 8, 9]] = [.msg [7], .unexpectedEOF] ∧
+    loopFresh 9 3 [[0, 0, 0, 1, 7, 0, 0, 0, 2, 8, 9]] = [.msg [7], .eof] ∧
+    loopFresh 9 3 ([0, 0, 0, 1, 7, 0, 0, 0, 2, 8, 9].map fun b => [b]) = [.msg [7], .msg [8, 9], .eof] := by
+  decide
 
 end ConfModel.Props.C09
